@@ -72,6 +72,11 @@ class Run:
     def error(self, msg):
         self.errors.append(msg)
 
+    def under(self, mapping, skip=None):
+        """a view of this run for rules shared between properties: obligations reported under rule R arrive here under mapping[R]
+        (dropped when R is not mapped or skip(config) is true); rule declarations of the shared code are ignored"""
+        return _RuleMap(self, mapping, skip)
+
     def assume(self, text):
         if text not in self.assumptions:
             self.assumptions.append(text)
@@ -203,3 +208,23 @@ def finish(run, program_stats=None, selftest=None, replay_key=None):
         print(f"OK property={run.prop} ({ev['coverage']['discharged']}/{len(run.obs)} obligations hold"
               f"{', ' + str(len(seen_known)) + ' known finding(s)' if seen_known else ''}; {ev['wall_s']} s)")
     return code
+
+
+class _RuleMap:
+    def __init__(self, run, mapping, skip=None):
+        self._run, self._map, self._skip = run, dict(mapping), skip
+        self.extra = run.extra
+
+    def rule(self, rid, text, min_instances=1):
+        pass
+
+    def assume(self, text):
+        self._run.assume(text)
+
+    def error(self, msg):
+        self._run.error(msg)
+
+    def ob(self, rule, fn, role, ok, detail="", witness="", node=None, file="", config=""):
+        if rule not in self._map or (self._skip is not None and self._skip(config)):
+            return None
+        return self._run.ob(self._map[rule], fn, role, ok, detail, witness, node, file, config)
